@@ -26,7 +26,9 @@ func mcWorlds(tier string) []explore.Case {
 	cat := gen.Catalogue(tier)
 	var out []explore.Case
 	consTexts := []string{`"foo"`, `true`, `decl.foo`, `{ foo = "x", bar = true }`, `["a", "b"]`, `fn("a", decl.foo)`, `"a${decl.foo.bar}b"`,
-		`provider::aws::x`, `true ? decl.foo : "b"`, `[for v in decl.foo : v if v]`, `{ fo`, `list(string)`, `decl.foo[decl.foo.bar]`}
+		`provider::aws::x`, `true ? decl.foo : "b"`, `[for v in decl.foo : v if v]`, `{ fo`, `list(string)`, `decl.foo[decl.foo.bar]`,
+		// blanks inside a traversal, in a template, around operators: prefixes the queries may want to normalise
+		`decl. fo`, `"${decl .fo}"`, `decl.foo [ 0 ]`}
 	want := map[string]bool{}
 	for _, n := range []string{"LiteralType{string}", "LiteralType{object}", "LiteralValue{\"foo\"}", "Keyword{kwd}", "TypeDeclaration",
 		"Reference{OfType string}", "Reference{Address sa}", "Any{string}", "Any{object}", "Any{dynamic}", "Any{list_string}",
